@@ -1,2 +1,26 @@
-(* C09 - property statements (theorems are being added) *)
-From Asherah Require Import Envelope.Session.
+(* C09 - protected key memory is released.
+   PROVED for every world, payload and fault plan: whatever Encrypt returns (record or error), the secret it
+   allocated for the data key is closed when it returns (C09_data_key_released); for every history, no SDK
+   operation ever reopens a released secret or changes a secret's content, and key objects keep their secret
+   (C09_secrets_monotone).
+   The full accounting statement (every secret released exactly once after Close) is REFUTED on the faithful model:
+   known finding C09-J, witness below; everything else about accounting is decided by the trace correspondence. *)
+From Asherah Require Import Envelope.Session Envelope.Frame Envelope.Local Envelope.FrameInst Envelope.Rotation.
+
+Theorem C09_data_key_released : forall e payload w r w' ik w1,
+  get_or_load_latest (en_ik e) (p_rci (en_pol e)) (p_expire (en_pol e)) (ik_id e)
+                     (fun m => load_latest_or_create_intermediate_key e (km_id m)) w = (inr ik, w1) ->
+  encrypt_payload e payload w = (r, w') ->
+  forall sc, nth_error (w_secrets w') (length (w_secrets w1)) = Some sc -> s_closed sc = true.
+Proof. exact encrypt_releases_data_key. Qed.
+Print Assumptions C09_data_key_released.
+
+Theorem C09_secrets_monotone : forall h o, sdk_op o = true ->
+  secrets_mono (h_world h) (h_world (snd (hstep h o))).
+Proof. exact sdk_secrets_monotone. Qed.
+Print Assumptions C09_secrets_monotone.
+
+Theorem C09_accounting_refuted_parent_mismatch :
+  live_secrets (h_world (snd (hrun (hinit t0) witness_leak))) <> [].
+Proof. exact C09_refuted_parent_mismatch_leak. Qed.
+Print Assumptions C09_accounting_refuted_parent_mismatch.
